@@ -25,7 +25,17 @@ class FakeModel:
     """Stands in for _NumbersModel under Document.add_sheet / Sheet._add_table / ItemsList:
     keeps ids, names and the parent of each table; tables have no rows."""
 
+    class _NameRefCache:
+        """The real model keeps a cache of name scopes that renames mark dirty; the stand-in has nothing to refresh."""
+
+        def mark_dirty(self):
+            pass
+
+        def refresh(self):
+            pass
+
     def __init__(self, sheets):
+        self.name_ref_cache = FakeModel._NameRefCache()
         self._next = 1000
         self._sheet_order = []
         self._sheet_names = {}
